@@ -394,6 +394,12 @@ def check(ctx, as_premise=False):
                            "instead of what the caller asked for" % (prm, op, pdu))
     if not as_premise:
         ctx.floor("API arguments followed into their requests", n_args, 14)
+        # subscribe()/unsubscribe() take their topics in three shapes (a string with qos, one pair, a list of pairs): that the topic list
+        # reaching encode() is what the caller gave - each filter with its own QoS - is C07's normalisation rule; it is the plumbing of
+        # the one argument the rule above cannot follow field by field
+        run_premise(ctx, "C07", "S3", "topic-list", "the topic list given to subscribe()/unsubscribe() reaches encode() as given",
+                    "the SUBSCRIBE / UNSUBSCRIBE on the wire does not carry the filters and requested QoS the caller asked for",
+                    only=lambda f: f.rule == "S-NORM")
     # ---------------- S6: stored packets patched at byte 0 with dup<<3 only ----------------
     npatch = 0
     for cls in a.protos[1:]:
